@@ -20,8 +20,12 @@ def rule_once(ctx, rep):
     if not hb:
         rep.error("R-C11-once", "handle_notification not found")
         return
-    b = hb[0]
     SEND = LSP + "::send_notification"
+    # a helper of the server that analyses/publishes (`self.publish_diagnostics(uri, version)`) is part of the arm that calls it
+    from vlib.inline import inlined
+    from vlib import units as _u
+    STEPS = (SEND, "ironplcc::lsp_project::LspProject::change_text_document", "ironplcc::lsp_project::LspProject::semantic", "crossbeam_channel::channel::Sender::send")
+    b = inlined(ctx.prog, hb[0], accept=lambda h: norm(h.id) != SEND and any((c.callee or "") in STEPS for _, c, _ in _u.calls_in_unit(ctx, h)))
 
     def is_publish(c):
         return c is not None and c.callee == SEND and "PublishDiagnostics" in (c.ga or "")
